@@ -17,16 +17,16 @@ import (
 const modPath = "connectrpc.com/conformance"
 
 type Program struct {
-	prog    *ssa.Program
-	fset    *token.FileSet
-	pkgs    []*packages.Package
-	spkgs   map[string]*ssa.Package
-	tpkgs   map[string]*types.Package
-	funcs   map[string]*ssa.Function
-	reg     *Registry
-	repo    string
-	srcText map[string][]string // file -> lines
-	astFile map[string]*ast.File
+	prog     *ssa.Program
+	fset     *token.FileSet
+	pkgs     []*packages.Package
+	spkgs    map[string]*ssa.Package
+	tpkgs    map[string]*types.Package
+	funcs    map[string]*ssa.Function
+	reg      *Registry
+	repo     string
+	srcText  map[string][]string // file -> lines
+	astFile  map[string]*ast.File
 	pkgFiles map[string][]*ast.File
 }
 
